@@ -249,6 +249,14 @@ def walkUp (g : NGraph) (keys : List Obj) : Nat → List Obj → Obj → List Ob
           else walkUp g keys fuel (dependentSet g newKey) newKey (chain ++ [newKey]) st
     | _ => (chain, top, st)
 
+/-- the key under which a fused chain is stored: the renamer's answer, unless there is none or the name is already
+    taken (`renamed_key in dependents or renamed_key in result`) — then the top key -/
+def chooseName (g : NGraph) (result : FGraph) (top : Obj) : Option Obj → Obj
+  | none => top
+  | some r =>
+    if r != top && ((g.map Prod.fst).contains r || (g.any fun kn => kn.2.deps.contains r) ||
+                    (result.map Prod.fst).contains r) then top else r
+
 /-- the body of `for key in dsk:` -/
 def fuseLinearStep (g : NGraph) (keys : List Obj) (rename : List Obj → Option Obj) (st : FuseSt) (key : Obj) : FuseSt :=
   if st.seen.contains key then st
@@ -269,12 +277,7 @@ def fuseLinearStep (g : NGraph) (keys : List Obj) (rename : List Obj → Option 
         | [_] => { st with result := setKey st.result top (.plain n) }
         | _ =>
           let tasks := restrictTo g chain
-          let renamed :=
-            match rename chain with
-            | none => top
-            | some r =>
-              if r != top && ((g.map Prod.fst).contains r || (g.any fun kn => kn.2.deps.contains r) ||
-                              (st.result.map Prod.fst).contains r) then top else r
+          let renamed := chooseName g st.result top (rename chain)
           match taskFuse tasks with
           | none => st                                               -- ValueError: not reached on a linear chain
           | some fn =>
